@@ -446,13 +446,17 @@ class C20(MsgProp):
         self.gen = lambda c: str_items
         extra = super().run(ctx)
         ops = [i[0] for i in msg_items]
-        ans = ctx.run_all([ctx.exe_release], ops, 20.0)
         fails = 0
-        for op, a in zip(ops, ans):
-            if not a.startswith("PASS"):
-                fails += 1
-                if len(ctx.violations) < 60:
-                    ctx.violations.append({"op": op[:3000], "profile": "release", "oracle": a[:300]})
+        builds = [("release", ctx.exe_release)]
+        if getattr(ctx, "exe_nostd", None) and os.path.exists(ctx.exe_nostd):
+            builds.append(("nostd", ctx.exe_nostd))      # serde on, the crate's std feature off
+        for prof, exe_ in builds:
+            ans = ctx.run_all([exe_], ops, 20.0)
+            for op, a in zip(ops, ans):
+                if not a.startswith("PASS"):
+                    fails += 1
+                    if len(ctx.violations) < 60:
+                        ctx.violations.append({"op": op[:3000], "profile": prof, "oracle": a[:300]})
         ctx.cov["evaluations"] += len(ops)
         ctx.cov["distinct_nontrivial"] += len(set(ops))
         ctx.cov["oracle_failures"] += fails
